@@ -197,6 +197,34 @@ def generate(api):
         out.append("(* `tiny_skia::Pixmap::new(%s)` *)\nDefinition layer_size (ibbox : irect) : Z * Z :=\n  %s.\n"
                    % (" ".join(args.split()), d))
 
+        # ---- the clamp box handed to the children (nested layers) ----------------------------------
+        rn = re.search(r"\brender_nodes\(\s*group\s*,\s*ctx\s*,\s*transform\s*,", rest)
+        if not rn:
+            raise U("`render_nodes(group, ctx, transform, ..)` not found after the layer allocation")
+        before = rest[:rn.start()]
+        cm = re.search(r"Context\s*\{\s*max_bbox\s*:", before)
+        if not cm:
+            raise U("the layer does not give its children a Context with max_bbox moved into the layer's frame "
+                    "(`let ctx = &Context { max_bbox: ctx.max_bbox.translate(-ibbox.x(), -ibbox.y()).. }` before render_nodes; fixed in ffdf909)")
+        e0 = cm.end()
+        e1 = balanced(before, before.index('{', cm.start()), '{', '}') - 1
+        cexpr = before[e0:e1].strip().rstrip(',').strip()
+        if not re.search(r"let\s+ctx\s*=\s*&", before):
+            raise U("the translated Context is not bound to `ctx` before render_nodes")
+        skip_on_none = cexpr.endswith('?')
+        if skip_on_none:
+            cexpr = cexpr[:-1].strip()
+        cexpr = re.sub(r"ctx\s*\.\s*max_bbox", "max_bbox", cexpr)
+        if re.search(r"\b(ctx|group|transform|pixmap|bbox)\b", re.sub(r"\b(max_bbox|ibbox)\b", "", cexpr)):
+            raise U("children's max_bbox uses something other than ctx.max_bbox / ibbox: %s" % cexpr)
+        cfgc = dict(dom='Z', methods={'translate': 'irect_translate', 'unwrap_or': 'opt_unwrap_or', 'unwrap_or_default': None},
+                    recv_methods={'ibbox': {'x': 'ix', 'y': 'iy', 'width': 'iw', 'height': 'ih'}}, calls={}, casts={'i32': None})
+        d = Em(cfgc).block(rs.parse_body("{ %s }" % cexpr))
+        if skip_on_none:
+            d = "(opt_unwrap_or %s max_bbox)" % d
+        out.append("(* children of the layer: Context { max_bbox: %s } *)\nDefinition layer_child_max (max_bbox : irect) (ibbox : irect) : irect :=\n  %s.\n"
+                   % (" ".join(cexpr.split()), d))
+
         m = re.search(r"\bpixmap\s*\.\s*draw_pixmap\(", rest)
         if not m:
             raise U("pixmap.draw_pixmap( not found")
